@@ -6,7 +6,8 @@ Extract/ml/pm_model.ml, needs the target Extract/ExtractPm.vo) on the same frequ
   * the return value of assign_codes() (best cost, uint32) and length[0..as-1],
   * leaf_weight[0..as] after labelling + sort_alphabet(),
   * the whole tree[21][21] matrix after package_merge().
-Mode "L" lines (20 * sum(freq) < 2^32, the range covered by the theorems of Enc/PmProofs.v) compare everything;
+Mode "L" lines (258 * sum(freq) < 2^32, the range covered by the theorems of Enc/PmProofs.v, in which the real
+assign_codes provably does not trip its assert()s) compare everything;
 mode "T" lines (sum(freq) up to 2^32 - 1, where 64-bit weights may wrap and assign_codes may trip its own
 assert()s - unreachable in lbzip2, whose frequencies sum to at most the block size) compare leaf_weight and tree only.
 """
@@ -17,7 +18,7 @@ from runner import Broken
 
 MAXLEN = 20
 MAX_ALPHA = 258
-LIMIT_L = (1 << 32) // 20          # L mode: 20 * sum(freq) < 2^32
+LIMIT_L = (1 << 32) // MAX_ALPHA   # L mode: MAX_ALPHA_SIZE * sum(freq) < 2^32 = pm_input_ok of Enc/PmProofs.v
 LIMIT_T = (1 << 32) - 1
 
 
@@ -119,10 +120,12 @@ def gen_case(r, small=False):
         mode = "T"
         w = [r.range(0, 1 << 30) ** r.choice([1, 2, 4]) for _ in range(n)]
         s = sum(w) or 1
-        tot = r.choice([LIMIT_T, LIMIT_T, LIMIT_T // 2, LIMIT_T // 5, LIMIT_T // 12])
+        tot = r.choice([LIMIT_T, LIMIT_T, LIMIT_T // 2, LIMIT_T // 5, LIMIT_T // 12, LIMIT_T // 20, LIMIT_T // 100])
         f = [x * (tot - n) // s for x in w]
+    if mode == "L":
+        f = _scale_to(f, LIMIT_L)
     assert len(f) == n and all(0 <= x < (1 << 32) for x in f)
-    assert sum(f) <= LIMIT_T and (mode == "T" or 20 * sum(f) < (1 << 32)), (kind, sum(f))
+    assert sum(f) <= LIMIT_T and (mode == "T" or MAX_ALPHA * sum(f) < (1 << 32)), (kind, sum(f))
     return mode, kind, f
 
 
@@ -140,7 +143,7 @@ FIXED = [
 
 
 def gen_cases(r, n_cases):
-    cases = list(FIXED)
+    cases = [(m, k, _scale_to(f, LIMIT_L) if m == "L" else f) for (m, k, f) in FIXED]
     while len(cases) < n_cases:
         # three small ones for each one of arbitrary size: the proofs' case splits are all reachable
         # with small alphabets, and the model side is slow on big ones
@@ -185,7 +188,7 @@ def correspond(check, n_cases=None, flavor="asan"):
     if rc2 != 0 or len(model) != len(cases) + 1:
         check.broken.append(Broken("correspondence", "pm model driver failed (rc=%s, %d/%d lines)" % (rc2, len(model), len(cases) + 1),
                                    e2[-1500:]))
-    if impl[:1] != model[:1]:
+    if impl[:1] and model[:1] and impl[:1] != model[:1]:
         check.broken.append(Broken("correspondence", "constants differ between encode.c/common.h and the model",
                                    "impl=%s model=%s" % (impl[:1], model[:1])))
     hist = {"mode_L": 0, "mode_T": 0, "as=2": 0, "as=258": 0, "maxlen=20": 0, "limit_binds": 0, "has_zero": 0,
@@ -204,6 +207,10 @@ def correspond(check, n_cases=None, flavor="asan"):
         if mode == "L":
             if b.startswith("ERR"):
                 hist["model_err_L"] += 1
+                if hist["model_err_L"] <= 3:
+                    check.broken.append(Broken("correspondence", "the model returns an error value inside the input range "
+                                               "covered by C20pm_safe_and_complete (extraction or model changed?)",
+                                               "freq=%s model=%s" % (",".join(map(str, f))[:300], b[:80])))
             elif "len" in fb:
                 lens = list(map(int, fb["len"].split(",")))
                 ml = max(lens)
@@ -216,6 +223,8 @@ def correspond(check, n_cases=None, flavor="asan"):
                     hist["limit_binds"] += 1
         if len(f) >= 3:
             distinct.add((mode, tuple(f)))
+        if a == "<none>" and rc1 != 0:
+            continue          # the crash is already reported, with the input it happened on
         if a != b:
             ndiff += 1
             if ndiff <= 5:
@@ -241,7 +250,7 @@ def correspond(check, n_cases=None, flavor="asan"):
         "distinct_nontrivial": len(distinct),
         "rule": "distinct frequency vectors with as >= 3 (as 2..258; uniform/zero-heavy/Fibonacci and perturbed Fibonacci "
                 "(20-bit limit binds)/geometric/equal/all-zero/few-values/power-of-two ties/plateaux/one-big/largest sums "
-                "with 20*sum < 2^32; plus 'overflow' vectors with sum up to 2^32-1 compared on leaf_weight+tree only); "
+                "with 258*sum < 2^32; plus 'overflow' vectors with sum up to 2^32-1 compared on leaf_weight+tree only); "
                 "compared: assign_codes() return value, length[0..as-1], leaf_weight[0..as] after sort_alphabet, "
                 "the full tree[21][21] after package_merge; harness built with ASan+UBSan and asserts",
         "samples": [l[:300] for l in lines[len(FIXED):len(FIXED) + 3]],
